@@ -5,8 +5,11 @@
    apply_call uses the generated in-place composers translate/rotate/scale/reflect, act is the primitive action.
    Full statement over R: commutation with evaluation for any matrix and all real t; call-order composition for
    call lists of ANY length; scale factors on their own axes including 0; inverse (nonzero determinant), rigid ccw
-   rotation fixing the centre; alignment.  NOT covered by a theorem: floating-point error of the same identities
-   (measured at 1e-9 by the search), libm's cos/sin/atan2 (oracle values in the correspondence). *)
+   rotation fixing the centre; alignment.  Floating-point clause (Proofs/C09float.v, Flocq, binary64 instance FOps of the
+   same regenerated text): transform/translate/scale-then-evaluate and evaluate-then-transform are each within a few roundoff units
+   (e.g. cubic: 276 u N + 40 eta, N = A*M + B) of the exact transform of the exact evaluation, hence of each other.
+   NOT covered by a theorem: floating-point error of rotation, inverse and composition (measured at 1e-9 by the search),
+   libm's cos/sin/atan2 (oracle values in the correspondence). *)
 
 From Flocq Require Import Core.   (* bpow, radix2 for the float statements; imported first so that [float] below is PrimFloat.float *)
 From Coq Require Import PrimFloat.
